@@ -22,7 +22,7 @@ for d in sorted(glob.glob(os.path.join(SRC, '*/'))):
             continue
         if os.path.getsize(p) > 300000 or os.access(p, os.X_OK) and not f.endswith('.sh'):
             continue
-        if f.endswith(('.diff', '.sh', '.cpp', '.hpp', '.h', '.xml', '.txt', '.md', '.py', '.log')):
+        if f.endswith(('.diff', '.sh', '.cpp', '.hpp', '.h', '.xml', '.txt', '.md', '.py')) or f.startswith('confirm'):
             shutil.copy2(p, os.path.join(out, f))
     try:
         meta = json.load(open(os.path.join(d, 'meta.json')))
@@ -34,6 +34,11 @@ for d in sorted(glob.glob(os.path.join(SRC, '*/'))):
     except Exception:
         det = {}
     meta['checks_run_against_it'] = {k: {'detected': v.get('detected'), 'exit': v.get('exit'), 'violation': (v.get('first_detail') or [''])[0][:300], 'summary': (v.get('summary') or [''])[0][:300]} for k, v in det.items()}
+    try:
+        er = json.load(open(os.path.join(d, 'detect.earlier-runs.json')))
+        meta['earlier_runs'] = {k: {'detected': v.get('detected'), 'violation': (v.get('first_detail') or [''])[0][:200], 'summary': (v.get('summary') or [''])[0][:200]} for k, v in er.items()}
+    except Exception:
+        pass
     meta['how_run'] = 'confirmation: vp/confirm_mutant.sh <dir> <scratch worktree> (apply, rebuild, repository suite, demo; revert, rebuild, suite, demo); detection: vp/seedtest.py <scratch copy> <dir> <check ids> (change applied to a scratch copy of the tree, checks run with VERIF_REPO=<copy>, change taken out again)'
     json.dump(meta, open(os.path.join(out, 'meta.json'), 'w'), indent=1)
     n += 1
